@@ -11,6 +11,7 @@
 From Coq Require Import ZArith NArith List Bool String.
 From Falcon.lib Require Import PyStr.
 From Falcon.gen Require Import ConstsC09.
+From Falcon.C10 Require Model.
 Import ListNotations.
 Open Scope N_scope.
 
@@ -363,29 +364,9 @@ Definition pair_match (s : str) : option (str * str * str) :=
   | _, _ => None
   end.
 
-(* s.replace('\\', '') *)
-Definition drop_bsl (s : str) : str := filter (fun c => negb (c =? bsl)) s.
-
-(* s.split('\\\\') *)
-Fixpoint split_bsl2 (s : str) (cur : str) : list str :=
-  match s with
-  | a :: ((b :: tl') as tl) =>
-    if (a =? bsl) && (b =? bsl) then rev cur :: split_bsl2 tl' [] else split_bsl2 tl (a :: cur)
-  | [a] => [rev (a :: cur)]
-  | [] => [rev cur]
-  end.
-
-(* uri.unquote_string *)
-Definition unquote_string (q : str) : str :=
-  match q with
-  | c :: ((_ :: _) as tl) =>
-    if negb (c =? dq) || negb (last q 0 =? dq) then q else
-    let tmp := removelast tl in
-    if negb (char_in bsl tmp) then tmp
-    else if negb (contains tmp [bsl; bsl]) then drop_bsl tmp
-    else join_chr bsl (map drop_bsl (split_bsl2 tmp []))
-  | _ => q
-  end.
+(* uri.unquote_string: the model of C10 (coq/C10/Model.v), where it is tied to the code and proved
+   to be the quoted-pair reading *)
+Definition unquote_string : str -> str := Falcon.C10.Model.unquote_string.
 
 Definition s_by : str := Eval vm_compute in lit "by".
 Definition s_for : str := Eval vm_compute in lit "for".
